@@ -128,7 +128,7 @@ TStuck == /\ Is("stuck") /\ UNCHANGED <<vars, aux>>
           /\ ExecBlocked
           /\ Cardinality({c \in Clients : cpc[c] # "idle"}) = Ev.n
 (* the processor's loop is abstracted (queue.loop.signals); reader.take is a harness gate; lateclosed is a probe after the end *)
-TIgnore == /\ HasNext /\ Ev.ev \in {"reader.take", "queue.loop.signals", "lateclosed"} /\ Eat /\ UNCHANGED <<vars, aux>>
+TIgnore == /\ HasNext /\ Ev.ev \in {"reader.take", "queue.loop.signals", "lateclosed", "leftopen"} /\ Eat /\ UNCHANGED <<vars, aux>>
 
 TNext == TSubCall \/ TBatchCall \/ TCloseCall \/ TRet \/ TCancel \/ TRWait \/ TAdv \/ TRecv \/ TFwdGot \/ TFwdExit \/ TFwdUnregd
          \/ TEnqEnter \/ TAfterQueue \/ TExecEnter \/ TExecNext \/ Silent \/ TQuiescent \/ TStuck \/ TIgnore
